@@ -52,16 +52,69 @@ type modSrc struct {
 }
 
 type genStats struct {
-	modules, submodules, rpcs, augments, uses, withErrors int
+	modules, submodules, rpcs, augments, uses, deviations, withErrors int
 }
 
-// genSet writes 2-4 modules (module i imports every module j > i it refers to) and sometimes a
-// submodule of m0.  All names that goyang keeps in set-wide tables (identities, augment children)
-// are unique in the set, so that the result does not depend on map iteration order.
-func genSet(r *rand.Rand, withErrors bool) ([]modSrc, genStats) {
+// palette says which statement kinds a generated set may use.  The base kinds (module, import,
+// container, leaf, typedef, identity) are always there.
+type palette struct {
+	uses, leafList, list, choice, nested, rpc, action, notification, anydata, augment, deviation, submodule bool
+}
+
+var paletteKinds = []string{"uses", "leaf-list", "list", "choice", "nested", "rpc", "action", "notification", "anydata", "augment", "deviation", "submodule"}
+
+// paletteFor: round number `round` is the stage-th round of its process (stage = round % batch).
+// Stage 0 uses the base kinds only; every later stage adds one more kind, in an order that
+// differs from batch to batch, so that each kind is converted for the first time in its process
+// by the goroutines of one round, concurrently.  After all kinds are in, everything is allowed.
+func paletteFor(seed int64, round, batch int) (palette, []string) {
+	stage := round % batch
+	order := rand.New(rand.NewSource(seed*31 + int64(round/batch))).Perm(len(paletteKinds))
+	var p palette
+	var names []string
+	for pos, k := range order {
+		if pos >= stage {
+			break
+		}
+		names = append(names, paletteKinds[k])
+		switch paletteKinds[k] {
+		case "uses":
+			p.uses = true
+		case "leaf-list":
+			p.leafList = true
+		case "list":
+			p.list = true
+		case "choice":
+			p.choice = true
+		case "nested":
+			p.nested = true
+		case "rpc":
+			p.rpc = true
+		case "action":
+			p.action = true
+		case "notification":
+			p.notification = true
+		case "anydata":
+			p.anydata = true
+		case "augment":
+			p.augment = true
+		case "deviation":
+			p.deviation = true
+		case "submodule":
+			p.submodule = true
+		}
+	}
+	sort.Strings(names)
+	return p, names
+}
+
+// genSet writes 2-4 modules (module i imports every module j > i) and sometimes a submodule of
+// m0.  All names that goyang keeps in set-wide tables (identities, augment children, deviation
+// targets) are unique in the set, so that the result does not depend on map iteration order.
+func genSet(r *rand.Rand, withErrors bool, pal palette) ([]modSrc, genStats) {
 	var st genStats
 	nm := 2 + r.Intn(3)
-	sub := r.Intn(2) == 0
+	sub := pal.submodule && r.Intn(2) == 0
 	var out []modSrc
 	leafType := func(i int, others []int) string {
 		switch k := r.Intn(8); {
@@ -93,7 +146,7 @@ func genSet(r *rand.Rand, withErrors bool) ([]modSrc, genStats) {
 		for k := 0; k < nl; k++ {
 			fmt.Fprintf(b, "%sleaf l%d { %s }\n", ind, k, leafType(i, others))
 		}
-		if r.Intn(2) == 0 {
+		if pal.uses && r.Intn(2) == 0 {
 			st.uses++
 			if len(others) > 0 && r.Intn(2) == 0 {
 				j := others[r.Intn(len(others))]
@@ -102,16 +155,29 @@ func genSet(r *rand.Rand, withErrors bool) ([]modSrc, genStats) {
 				fmt.Fprintf(b, "%suses g%d;\n", ind, i)
 			}
 		}
-		if r.Intn(2) == 0 {
+		if pal.leafList && r.Intn(2) == 0 {
 			fmt.Fprintf(b, "%sleaf-list ll { type string; }\n", ind)
 		}
-		if r.Intn(2) == 0 {
+		if pal.list && r.Intn(2) == 0 {
 			fmt.Fprintf(b, "%slist li { key k; leaf k { type string; } leaf v { %s } }\n", ind, leafType(i, others))
 		}
-		if r.Intn(3) == 0 {
+		if pal.choice && r.Intn(3) == 0 {
 			fmt.Fprintf(b, "%schoice ch { case ca { leaf cl { type string; } } leaf cb { type t%d; } }\n", ind, i)
 		}
-		if depth > 0 && r.Intn(2) == 0 {
+		if pal.anydata && r.Intn(3) == 0 {
+			fmt.Fprintf(b, "%sanydata ad;\n%sanyxml ax;\n", ind, ind)
+		}
+		if pal.action && r.Intn(3) == 0 {
+			switch r.Intn(3) {
+			case 0:
+				fmt.Fprintf(b, "%saction act { input { leaf ai { type string; } } output { leaf ao { %s } } }\n", ind, leafType(i, others))
+			case 1:
+				fmt.Fprintf(b, "%saction act { input { leaf ai { type string; } } }\n", ind)
+			default:
+				fmt.Fprintf(b, "%saction act { output { leaf ao { type string; } } }\n", ind)
+			}
+		}
+		if pal.nested && depth > 0 && r.Intn(2) == 0 {
 			fmt.Fprintf(b, "%scontainer n%d {\n", ind, depth)
 			body(b, i, others, depth-1, ind+"  ")
 			fmt.Fprintf(b, "%s}\n", ind)
@@ -123,7 +189,7 @@ func genSet(r *rand.Rand, withErrors bool) ([]modSrc, genStats) {
 			others = append(others, j)
 		}
 		var b strings.Builder
-		fmt.Fprintf(&b, "module m%d {\n  namespace \"urn:m%d\";\n  prefix p%d;\n", i, i, i)
+		fmt.Fprintf(&b, "module m%d {\n  yang-version 1.1;\n  namespace \"urn:m%d\";\n  prefix p%d;\n", i, i, i)
 		for _, j := range others {
 			fmt.Fprintf(&b, "  import m%d { prefix p%d; }\n", j, j)
 		}
@@ -138,7 +204,9 @@ func genSet(r *rand.Rand, withErrors bool) ([]modSrc, genStats) {
 			fmt.Fprintf(&b, "  identity x%d { base p%d:id%d; }\n", i, j, j)
 		}
 		fmt.Fprintf(&b, "  identity id%d;\n  identity sub%d { base id%d; }\n", i, i, i)
-		fmt.Fprintf(&b, "  grouping g%d {\n    leaf gl { type t%d; }\n    container gc { leaf x { type uint8; default 3; } }\n  }\n", i, i)
+		if pal.uses {
+			fmt.Fprintf(&b, "  grouping g%d {\n    leaf gl { type t%d; }\n    container gc { leaf x { type uint8; default 3; } }\n  }\n", i, i)
+		}
 		nc := 1 + r.Intn(3)
 		for c := 0; c < nc; c++ {
 			fmt.Fprintf(&b, "  container c%d {\n", c)
@@ -148,7 +216,10 @@ func genSet(r *rand.Rand, withErrors bool) ([]modSrc, genStats) {
 			}
 			b.WriteString("  }\n")
 		}
-		nr := r.Intn(3)
+		nr := 0
+		if pal.rpc {
+			nr = r.Intn(3)
+		}
 		for k := 0; k < nr; k++ {
 			st.rpcs++
 			fmt.Fprintf(&b, "  rpc r%d {\n", k)
@@ -161,10 +232,19 @@ func genSet(r *rand.Rand, withErrors bool) ([]modSrc, genStats) {
 			}
 			b.WriteString("  }\n")
 		}
-		if len(others) > 0 && r.Intn(3) != 0 {
+		if pal.notification && r.Intn(2) == 0 {
+			fmt.Fprintf(&b, "  notification ev%d { leaf nl { %s } }\n", i, leafType(i, others))
+		}
+		if pal.augment && len(others) > 0 && r.Intn(3) != 0 {
 			st.augments++
 			j := others[r.Intn(len(others))]
 			fmt.Fprintf(&b, "  augment \"/p%d:c0\" { leaf aug%d { type t%d; } container augc%d { leaf y { type string; } } }\n", j, i, i, i)
+		}
+		if pal.deviation && len(others) > 0 && r.Intn(2) == 0 {
+			// module i is the only one that deviates module i+1
+			st.deviations++
+			j := others[0]
+			fmt.Fprintf(&b, "  deviation \"/p%d:c0/p%d:l0\" { deviate not-supported; }\n", j, j)
 		}
 		b.WriteString("}\n")
 		out = append(out, modSrc{fmt.Sprintf("m%d.yang", i), b.String()})
@@ -173,7 +253,7 @@ func genSet(r *rand.Rand, withErrors bool) ([]modSrc, genStats) {
 	if sub {
 		st.submodules++
 		out = append(out, modSrc{"s0.yang",
-			"submodule s0 {\n  belongs-to m0 { prefix p0; }\n  container sc { leaf sl { type string; default \"s\"; } leaf sm { type uint8; } }\n}\n"})
+			"submodule s0 {\n  yang-version 1.1;\n  belongs-to m0 { prefix p0; }\n  container sc { leaf sl { type string; default \"s\"; } leaf sm { type uint8; } }\n}\n"})
 	}
 	if withErrors {
 		st.withErrors++
